@@ -491,7 +491,7 @@ func main() {
 		}
 		enc := append(u32le(uint32(n)), payload...)
 		enc = append(enc, 0xEE, 0xEE, 0xEE, 0xEE, 0xEE, 0xEE, 0xEE, 0xEE) // guard bytes that must stay unread
-		for _, chunk := range []int{0, 1, 7, 4096, -2} { // 0 = everything asked for, -2 = half of what is asked for
+		for _, chunk := range []int{0, 1, 7, 4096, -2} {                  // 0 = everything asked for, -2 = half of what is asked for
 			for _, byteReader := range []bool{false, true} {
 				states++
 				c := map[string]any{"prim": "String", "length": n, "chunk": chunk, "reader_offers_ReadByte": byteReader}
